@@ -23,6 +23,14 @@ void h_overwrite(Ctx& c) {
             std::string k = "o" + std::to_string(tr.below(20));
             yput(s.tok, "ow", k, make_value(c.next_id.fetch_add(1), k, tr.range(24, 400)), false, tr.chance(1, 2) ? 8 : 64);
             if (i % 50 == 0) { s.reenter(); }
+            if (i % 40 == 7) {
+                // a key private to this thread alternates between heap and inline (pointer-typed) values
+                std::string mk = "mix" + std::to_string(tid);
+                yput(s.tok, "ow", mk, make_value(c.next_id.fetch_add(1), mk, 80));
+                uintptr_t iv = 0x1000 + static_cast<uintptr_t>(i);
+                yk::put<uintptr_t>(s.tok, "ow", mk, &iv);
+                if (i % 80 == 7) { yput(s.tok, "ow", mk, make_value(c.next_id.fetch_add(1), mk, 40)); }
+            }
         }
         s.leave();
     });
